@@ -1,9 +1,13 @@
 ; strings.smt2 - library string functions as uninterpreted functions constrained by their contracts (interpreted
+; requires names.smt2
 ; SMT string operators hang z3 on small goals; measured in the design round)
-(declare-fun trimSpace (String) String)
+; trimSpace is declared in names.smt2
 (declare-fun toLower (String) String)
 (declare-fun lastIndex (String String) Int)
 (declare-fun contains (String String) Bool)
 (declare-fun hasPrefix (String String) Bool)
 (declare-fun hasSuffix (String String) Bool)
 (declare-fun strSlice (String Int Int) String)
+(declare-fun isHexAttr (String) Bool)                  ; ^#[0-9a-fA-F]+$
+(declare-fun hexdec (String) Bytes)
+(declare-fun isDuration (String) Bool)
